@@ -1214,23 +1214,23 @@ class ChoicePayloadDecoder(ConstructedPayloadDecoderBase):
                 if component is eoo.endOfOctets:
                     break
 
-                effectiveTagSet = component.effectiveTagSet
+            if component is eoo.endOfOctets:
+                break
 
-                if LOG:
-                    LOG('decoded component %s, effective tag set '
-                        '%s' % (component, effectiveTagSet))
+            effectiveTagSet = component.effectiveTagSet
 
-                asn1Object.setComponentByType(
-                    effectiveTagSet, component,
-                    verifyConstraints=False,
-                    matchTags=False, matchConstraints=False,
-                    innerFlag=False
-                )
+            if LOG:
+                LOG('decoded component %s, effective tag set '
+                    '%s' % (component, effectiveTagSet))
 
-                if not isTagged:
-                    break
+            asn1Object.setComponentByType(
+                effectiveTagSet, component,
+                verifyConstraints=False,
+                matchTags=False, matchConstraints=False,
+                innerFlag=False
+            )
 
-            if not isTagged or component is eoo.endOfOctets:
+            if not isTagged:
                 break
 
         yield asn1Object
